@@ -98,7 +98,7 @@ var pureLib = map[string]bool{
 	"regexp.MustCompile": true, "regexp.QuoteMeta": true,
 	"prometheus.Counter.Inc": false, "prometheus.Counter.Add": false, "prometheus.Gauge.Set": false, "Counter.Inc": false, "Counter.Add": false, "Gauge.Set": false, "Gauge.Inc": false, "Gauge.Dec": false, "Gauge.Add": false,
 	"prometheus.CounterVec.With": false, "prometheus.GaugeVec.With": false, "prometheus.CounterVec.WithLabelValues": false, "prometheus.GaugeVec.WithLabelValues": false,
-	"Observer.Observe": false, "prometheus.SummaryVec.WithLabelValues": false, "prometheus.Labels": false,
+	"Observer.Observe": false, "prometheus.Summary.Observe": false, "Summary.Observe": false, "prometheus.Histogram.Observe": false, "prometheus.SummaryVec.WithLabelValues": false, "prometheus.Labels": false,
 	"rand.Intn": false, "rand.Float64": false, "math/rand.Intn": false, "math/rand.Float64": false, "rand.Int63": false,
 	"runtime.Gosched": false, "runtime.GC": false,
 	"ctxlog.FromContext": false, "ctxlog.Context": false,
